@@ -43,6 +43,17 @@ def readonlyOps (n : Name) (ov : Option Value) (loc : Nat) : List Op :=
   | none => [Op.getOrNew n .global, Op.readonly n .global loc]
   | some v => [Op.assign n .global v none, Op.readonly n .global loc]
 
+/-- the `export` built-in (`yash-builtin/src/export.rs`: `sv.scope = Global`, attribute `Export`)
+    for one operand `n` or `n=v` -/
+def exportOps (n : Name) (ov : Option Value) : List Op :=
+  match ov with
+  | none => [Op.getOrNew n .global, Op.export n .global true]
+  | some v => [Op.assign n .global v none, Op.export n .global true]
+
+/-- the `unset` built-in for variables (`yash-builtin/src/unset/semantics.rs` `unset_variables`:
+    `env.variables.unset(name, Global)` for every operand) -/
+def unsetOps (names : List Name) : List Op := names.map fun n => Op.unset n .global
+
 /-- what a function called as `as… f ps…` starts its body in -/
 def enterFunction (as : List (Name × Value)) (ps : List String) : List Op :=
   [Op.push .volatile] ++ tempOps as ++ [Op.push (.regular ps)]
